@@ -8,7 +8,7 @@ import numpy as np
 
 from . import fam
 
-REGRESSORS = ["default", "ridge1e-3", "linreg", "pre+W", "pre-W"]
+REGRESSORS = ["default", "ridge1e-3", "linreg", "pre+W", "pre-W", "linreg-fitted-elsewhere"]
 
 
 def center(X):
@@ -16,9 +16,22 @@ def center(X):
     return X - X.mean(axis=0)
 
 
-def make_regressor(spec):
+def other_data(X, Y):
+    """Deterministic OTHER data of the same shape (for pre-fitted regressors / used estimators)."""
+    X = np.asarray(X, float)
+    Y = np.asarray(Y, float)
+    Xo = center(X[::-1, ::-1] * 0.75 + 0.5)
+    Yo = Y[::-1] * -0.5 + 0.125 * np.arange(len(Y)).reshape((-1,) + (1,) * (Y.ndim - 1))
+    return Xo, Yo - Yo.mean(axis=0)
+
+
+def make_regressor(spec, X=None, Y=None):
     from sklearn.linear_model import LinearRegression, Ridge
 
+    if spec == "linreg-fitted-elsewhere":
+        # a regressor the user fitted on OTHER data: PCovR must use it as it is
+        Xo, Yo = other_data(X, Y)
+        return LinearRegression(fit_intercept=False).fit(Xo, Yo)
     if spec == "default":
         return None
     if spec == "ridge1e-3":
@@ -33,6 +46,9 @@ def make_regressor(spec):
 def reference_W(spec, X, Y):
     """Independent regression weights for the regressor `spec` (no sklearn)."""
     X = np.asarray(X, float)
+    if spec == "linreg-fitted-elsewhere":
+        Xo, Yo = other_data(X, Y)
+        return np.linalg.lstsq(Xo, Yo.reshape(Xo.shape[0], -1), rcond=None)[0]
     Y = np.asarray(Y, float).reshape(X.shape[0], -1)
     U, s, Vt = np.linalg.svd(X, full_matrices=False)
     if spec in ("default", "ridge1e-3", "pre+W", "pre-W"):
@@ -45,26 +61,28 @@ def reference_W(spec, X, Y):
     return Vt.T @ (f[:, None] * (U.T @ Y))
 
 
-def fit_pcovr(X, Y, mixing, k, spec, space, solver, prefit=False, regressor_obj=None):
+def fit_pcovr(X, Y, mixing, k, spec, space, solver, prefit=False, regressor_obj=None, int_dtype=False):
     """Fit the real PCovR. Returns (estimator, exception). prefit: the estimator is a USED one
     (fitted before on other data of the same shape)."""
     import warnings
 
     from skmatter.decomposition import PCovR
 
-    reg = regressor_obj if regressor_obj is not None else make_regressor(spec)
+    reg = regressor_obj if regressor_obj is not None else make_regressor(spec, X, Y)
     est = PCovR(mixing=mixing, n_components=k, regressor=reg, space=space, svd_solver=solver, random_state=0)
     with warnings.catch_warnings():
         warnings.simplefilter("ignore")
         try:
             if prefit:
-                Xo = center(np.asarray(X, float)[::-1, ::-1] * 0.75 + 0.5)
-                Yo = np.asarray(Y, float)[::-1] * -0.5
+                Xo = center(np.asarray(X, float)[::-1, ::-1] * 0.6 + 0.25)
+                Yo = np.asarray(Y, float)[::-1] * -0.7
                 if spec.startswith("pre"):
                     Wo = reference_W(spec, Xo, Yo)
                     est.fit(Xo, Xo @ Wo, W=Wo if spec == "pre+W" else None)
                 else:
                     est.fit(Xo, Yo)
+            if int_dtype:
+                X = np.asarray(X).astype(np.int64)  # integer-valued data handed over with an integer dtype
             if spec == "pre+W":
                 W = reference_W(spec, X, Y)
                 est.fit(X, np.asarray(X) @ W, W=W)
@@ -118,7 +136,8 @@ class Ref:
         return (lam[k - 1] - nxt) / self.lam1 > gap
 
     def kept(self, k):
-        return [i for i in range(k) if self.lam[i] / self.lam1 >= 1e-9]
+        # the implementation drops eigenvalues below an ABSOLUTE 1e-12; judgeable() excludes the grey zone
+        return [i for i in range(k) if self.lam[i] / self.lam1 >= 1e-9 and self.lam[i] > 1e-13]
 
     def Kk(self, k):
         idx = self.kept(k)
@@ -185,6 +204,13 @@ def pcovr_datas(tier, seed, lattice_steps=None, generic_per_shape=None):
                 Y = np.array(fam.generic_vec(n, seed, j, p), float)
                 Ys.append((Y - Y.mean(axis=0)).tolist())
             out.append(("G%dx%d" % (n, m), X, Ys))
+    # integer-valued, exactly centred data that is also passed with an integer dtype (label "I...")
+    for j, base in enumerate([[[3, -1, 0], [-2, 2, 1], [1, -3, 2], [-2, 2, -3]], [[2, 1, -1, 0], [-1, -2, 3, 1], [-1, 1, -2, -1]],
+                              [[4, -2], [-1, 3], [-3, 0], [2, -4], [-2, 3]]]):
+        Xi = np.array(base, float)
+        n = len(Xi)
+        Yi = np.array([[float((i * 5 + 1) % 4) - 1.5 + 0.25 * i for i in range(n)], [float(i * i % 3) for i in range(n)]]).T
+        out.append(("I%dx%d" % Xi.shape, Xi.tolist(), [(Yi - Yi.mean(axis=0)).tolist()]))
     # planted low rank
     for (n, m, rk) in [(6, 4, 2), (4, 6, 2), (5, 5, 3)]:
         for j in range(1 if tier == "quick" else 6):
